@@ -140,7 +140,7 @@ def call(eng, s, fr, node):
 
 
 def _bind_args(eng, s, fr, c, node, prefix):
-    params = c.params(fr.config) if callable(c.params) else c.params
+    params = c.param_list(fr.config)
     names = [p[0] for p in params]
     vals = list(prefix) + [eng.eval(a, s, fr) for a in node.args]
     out = dict(zip(names, vals))
